@@ -344,7 +344,7 @@ namespace hist
         {
             return false;
         }
-        bool swap_with_fresh(bool) override
+        bool swap_with_fresh(bool, int) override
         {
             return false;
         }
@@ -443,7 +443,7 @@ namespace hist
         {
             return false;
         }
-        bool swap_with_fresh(bool) override
+        bool swap_with_fresh(bool, int) override
         {
             return false;
         }
@@ -529,7 +529,7 @@ namespace hist
         {
             return false;
         }
-        bool swap_with_fresh(bool) override
+        bool swap_with_fresh(bool, int) override
         {
             return false;
         }
